@@ -339,7 +339,8 @@ def run(ctx):
                     (st[0] == "a" and st[2][0] == "agg" and st[2][1] == "adt" and st[2][2].endswith("GenFunction") and st_name == "Function"):
                 idx = st[2][5].index("id")
                 toks = op_prov(pde, st[2][3][idx])
-                ok = "c:new" in toks and ("n:i" in toks)
+                # the id is built with `new(<loop index>)`: the index of the `for i in 0..size` loop (a Range iterator)
+                ok = "c:new" in toks and ("n:i" in toks or any(t.startswith("agg:") and "Range" in t for t in toks) or "c:next" in toks)
         ctx.ob("R18.2", "Program:%s.id=loop-index" % st_name, ok, "deserialized id is the loop index", pde.where())
 
     # ---------------- R18.4 long ids
